@@ -992,6 +992,21 @@ func init() {
 				}
 			}
 		}
+		// Make: what it produces is a function of the structure of the type and of the bits, not of which other types
+		// (of the same name, from another scope or package) were given to Make before
+		for i := 0; i < 12*scale; i++ {
+			ws := r.words(8)
+			if i%3 == 0 {
+				for j := range ws {
+					ws[j] |= 0xffff << 40 // wide values: int8 and int64 draws differ
+				}
+			}
+			m.tag("make-same-name")
+			m.eval("make-names|"+joinU64(ws), true)
+			if what := c04MakeNames(ws); what != "" {
+				m.violate(violation{"C04", "make-names", what, map[string]string{"words": joinU64(ws)}})
+			}
+		}
 		// Example(seed) is a function of the seed; history independence: interleave other work
 		g := rapid.SliceOfNDistinct(rapid.IntRange(0, 9), 0, 6, rapid.ID[int])
 		for i := 0; i < 50*scale; i++ {
@@ -1005,6 +1020,10 @@ func init() {
 				m.violate(violation{"C04", "example", fmt.Sprintf("Example(%d) gave %s then %s", seed, a, b), map[string]string{"seed": fmt.Sprint(seed)}})
 			}
 		}
+	}
+	replayers["make-names"] = func(v violation, tmp string) (bool, string) {
+		what := c04MakeNames(parseWordsGo(v.Params["words"]))
+		return what != "", what
 	}
 	replayers["alias"] = func(v violation, tmp string) (bool, string) {
 		k, _ := strconv.Atoi(v.Params["gen"])
@@ -1069,6 +1088,73 @@ var (
 	c04Ptr     = rapid.Ptr(rapid.IntRange(0, 9), false)
 	c04Just    = rapid.Permutation([]string{"x", "y", "z"})
 )
+
+// c04Draw draws one value from explicit words; a panic or invalid data is part of the result
+func c04Draw[V any](g *rapid.Generator[V], ws []uint64) (res string) {
+	defer func() {
+		if p := recover(); p != nil {
+			res = "panic: " + fmt.Sprint(p)
+		}
+	}()
+	t := rapid.VerifNewT(newRecTB("make"), rapid.VerifBufStream(ws, false), false)
+	return fmt.Sprintf("%v", rapid.VerifValue(g, t))
+}
+
+// four scopes, two names: in each pair the same name stands for two different types; the "a" types of both pairs
+// are structurally identical, and so are the "b" types.  Pair 1 meets Make in the order a, b; pair 2 in the order b, a.
+func c04MakeScope1a(ws []uint64) (string, string) {
+	type ID1 int8
+	type Rec1 struct {
+		X uint8
+		Y uint64
+	}
+	return c04Draw(rapid.Make[ID1](), ws), c04Draw(rapid.Make[Rec1](), ws)
+}
+
+func c04MakeScope1b(ws []uint64) (string, string) {
+	type ID1 int64
+	type Rec1 struct {
+		X uint64
+		Y uint8
+	}
+	return c04Draw(rapid.Make[ID1](), ws), c04Draw(rapid.Make[Rec1](), ws)
+}
+
+func c04MakeScope2a(ws []uint64) (string, string) {
+	type ID2 int8
+	type Rec2 struct {
+		X uint8
+		Y uint64
+	}
+	return c04Draw(rapid.Make[ID2](), ws), c04Draw(rapid.Make[Rec2](), ws)
+}
+
+func c04MakeScope2b(ws []uint64) (string, string) {
+	type ID2 int64
+	type Rec2 struct {
+		X uint64
+		Y uint8
+	}
+	return c04Draw(rapid.Make[ID2](), ws), c04Draw(rapid.Make[Rec2](), ws)
+}
+
+func c04MakeNames(ws []uint64) string {
+	a1i, a1r := c04MakeScope1a(ws)
+	b1i, b1r := c04MakeScope1b(ws)
+	b2i, b2r := c04MakeScope2b(ws)
+	a2i, a2r := c04MakeScope2a(ws)
+	switch {
+	case a1i != a2i:
+		return fmt.Sprintf("Make of a named int8 type from the same bits: %s when it is the first type of its name given to Make, %s after a same-named int64 type", a1i, a2i)
+	case b1i != b2i:
+		return fmt.Sprintf("Make of a named int64 type from the same bits: %s after a same-named int8 type, %s when it is the first of its name", b1i, b2i)
+	case a1r != a2r:
+		return fmt.Sprintf("Make of struct{uint8; uint64} from the same bits: %s when first of its name, %s after a same-named other struct", a1r, a2r)
+	case b1r != b2r:
+		return fmt.Sprintf("Make of struct{uint64; uint8} from the same bits: %s after a same-named other struct, %s when first of its name", b1r, b2r)
+	}
+	return ""
+}
 
 const c04AliasGens = 7
 
